@@ -4,6 +4,7 @@
 mod bddmode;
 mod compilemode;
 mod sx;
+mod watchmode;
 use std::io::{BufRead, Write};
 use sx::*;
 
@@ -52,6 +53,7 @@ fn main() {
                     "bdd" => bddmode::run(&req),
                     "compile" => compilemode::run(&req),
                     "det" => compilemode::run_det(&req),
+                    "watch" => watchmode::run(&req),
                     _ => panic!("unknown mode"),
                 });
                 match res {
